@@ -39,7 +39,8 @@ PROVE_TIMEOUT_MS = 20000
 class Path:
     concrete_mode = False
 
-    def __init__(self, decisions=(), observed_refinements=False, prove_timeout_ms=PROVE_TIMEOUT_MS):
+    def __init__(self, decisions=(), observed_refinements=False, prove_timeout_ms=PROVE_TIMEOUT_MS, degraded=None):
+        self.degraded = degraded if degraded is not None else [False]
         self.decisions = list(decisions)
         self.pos = 0
         self.taken = []
@@ -178,6 +179,27 @@ class Path:
         self._sync()
         neg = z3.And(zbool(hyp), z3.Not(zbool(goal_s)))
         aux = list(self.sink.aux)
+        if self.degraded[0]:
+            # an obligation of this function has already failed with a counter-model:
+            # remaining ones get a short budget (they are reported as unknown, not proved)
+            s1 = z3.Solver()
+            s1.set("timeout", 3000)
+            for a_ in self.solver.assertions():
+                s1.add(a_)
+            for a_ in aux:
+                s1.add(a_)
+            s1.add(neg)
+            r = s1.check()
+            self.n_queries += 1
+            dt = time.time() - t0
+            if r == z3.unsat:
+                ob = Obligation(name, "proved", dt, "z3+aux", level=level)
+            elif r == z3.sat:
+                ob = Obligation(name, "failed", dt, "z3+aux", model=s1.model() if want_model else None, level=level)
+            else:
+                ob = Obligation(name, "unknown", dt, "z3", detail="short budget after an earlier failed obligation", level=level)
+            self.obligations.append(ob)
+            return ob
         # fresh (non-incremental) solver: z3's incremental core is markedly weaker on
         # quantified + nonlinear queries (observed: unknown vs unsat in 1 s)
         s1 = z3.Solver()
@@ -214,6 +236,7 @@ class Path:
             if want_model:
                 model = s2.model()
             ob = Obligation(name, "failed", dt, backend, model=model, level=level)
+            self.degraded[0] = True
         else:
             ob = self._fallback(name, neg, dt, level, aux)
         self.obligations.append(ob)
@@ -229,7 +252,7 @@ class Path:
         for a in aux:
             s2.add(a)
         s2.add(neg)
-        res, detail = cvc5_check(s2, timeout_s=40)
+        res, detail = cvc5_check(s2, timeout_s=20)
         dt2 = time.time() - t0
         self.solver_seconds += dt2
         if res == "unsat":
